@@ -105,29 +105,43 @@ def notify (creq : Nat → Bool) : List (Nat × Bool) → List (Nat × Bool)
   | [] => []
   | (t, b) :: rest => if b || creq t then (t, b) :: notify creq rest else (t, true) :: rest
 
+/-- the waiter's `finally: self._waiters.remove(fut)` -/
+def dropTask (t : Nat) : List (Nat × Bool) → List (Nat × Bool)
+  | [] => []
+  | e :: rest => if e.1 = t then dropTask t rest else e :: dropTask t rest
+
 def ev2 (tag : String) (a k n : Nat) : String := s!"{tag}{a},{k}-{n}"
+
+/-- `connection = self.ready.pop()` (the logged choice `n`), `busy.add`, `waiters -= 1`. -/
+def grantReady (s : St) (t k n : Nat) : St :=
+  let h := s.host k
+  { setHost s k { h with ready := h.ready.erase n, busy := n :: h.busy, waiters := h.waiters - 1 } with
+    pc := upd s.pc t (.holding k n), evs := s.evs ++ [ev2 "G" t k n] }
+
+/-- `connection = self._connection_factory()` (a new, unconnected wrapper), `busy.add`, `waiters -= 1`. -/
+def grantFresh (s : St) (t k : Nat) : St :=
+  let h := s.host k
+  { setHost s k { h with busy := h.next :: h.busy, waiters := h.waiters - 1, next := h.next + 1 } with
+    pc := upd s.pc t (.holding k h.next), closed := upd s.closed k (upd (s.closed k) h.next true),
+    evs := s.evs ++ [ev2 "G" t k h.next] }
+
+/-- `yield from self._condition.wait()`: release the lock, queue a future, suspend. -/
+def waitOn (s : St) (t k : Nat) : St :=
+  let h := s.host k
+  { setHost s k { h with cond := h.cond ++ [(t, false)] } with pc := upd s.pc t (.cwait k) }
 
 /-- The `while True` loop of `HostPool.acquire` (lock held) up to its next suspension, followed —
 when a connection was obtained — by the rest of `ConnectionPool.acquire` (`waiters -= 1`). -/
 def hostAcquire (s : St) (t k : Nat) (g : Option Nat) : Option St :=
-  let h := s.host k
-  if h.ready ≠ [] then
+  if (s.host k).ready ≠ [] then
     match g with
-    | some n =>
-      if n ∈ h.ready then
-        some { setHost s k { h with ready := h.ready.erase n, busy := n :: h.busy, waiters := h.waiters - 1 } with
-               pc := upd s.pc t (.holding k n), evs := s.evs ++ [ev2 "G" t k n] }
-      else none
+    | some n => if n ∈ (s.host k).ready then some (grantReady s t k n) else none
     | none => none
-  else if h.busy.length < s.M then
-    if g = some h.next then
-      some { setHost s k { h with busy := h.next :: h.busy, waiters := h.waiters - 1, next := h.next + 1 } with
-             pc := upd s.pc t (.holding k h.next), closed := upd s.closed k (upd (s.closed k) h.next true),
-             evs := s.evs ++ [ev2 "G" t k h.next] }
-    else none
+  else if (s.host k).busy.length < s.M then
+    if g = some (s.host k).next then some (grantFresh s t k) else none
   else
     match g with
-    | none => some { setHost s k { h with cond := h.cond ++ [(t, false)] } with pc := upd s.pc t (.cwait k) }
+    | none => some (waitOn s t k)
     | some _ => none
 
 /-- `ConnectionPool.acquire` after the drain: look up / create the host pool, count as waiter. -/
@@ -168,9 +182,9 @@ def hostEmptyIdle (h : Host) : Bool := h.waiters == 0 && h.ready.isEmpty && h.bu
 drop every host pool without waiter and without connection. -/
 def cleanAll (s : St) (force : Bool) : St :=
   let host' : Nat → Host := fun k =>
-    if k ∈ s.present then
-      { s.host k with ready := if force then [] else (s.host k).ready.filter (fun n => !s.closed k n) }
-    else s.host k
+    { s.host k with ready :=
+        if k ∈ s.present then (if force then [] else (s.host k).ready.filter (fun n => !s.closed k n))
+        else (s.host k).ready }
   let closed' : Nat → Nat → Bool := fun k n =>
     if force && decide (k ∈ s.present) && decide (n ∈ (s.host k).ready) then true else s.closed k n
   { s with host := host', closed := closed',
@@ -208,7 +222,7 @@ wake-up on, release the lock; `ConnectionPool.acquire` then undoes the waiter co
 host pool if nothing keeps it. -/
 def cancelWait (s : St) (t k : Nat) : St :=
   let h := s.host k
-  let h' := { h with cond := notify s.creq (h.cond.filter (fun e => e.1 ≠ t)), waiters := h.waiters - 1 }
+  let h' := { h with cond := notify s.creq (dropTask t h.cond), waiters := h.waiters - 1 }
   let s1 := { setHost s k h' with pc := upd s.pc t .cancelled }
   if hostEmptyIdle h' then { s1 with present := s1.present.filter (fun x => x ≠ k) } else s1
 
@@ -237,10 +251,10 @@ def stepClient (s : St) (t : Nat) (pops : List Nat) (g : Option Nat) : Option St
   else
     match s.pc t with
     | .start => beginRound s t pops g
-    | .drain _ => beginRound s t pops g
+    | .drain _ => beginRound { s with pc := upd s.pc t .start } t pops g
     | .cwait k =>
       if pops = [] then
-        hostAcquire (setHost s k { s.host k with cond := (s.host k).cond.filter (fun e => e.1 ≠ t) }) t k g
+        hostAcquire { setHost s k { s.host k with cond := dropTask t (s.host k).cond } with pc := upd s.pc t .start } t k g
       else none
     | .holding k n =>
       match s.prog t with
